@@ -99,6 +99,11 @@ def gen_plan(seed: int, run: int, tier: str) -> dict:
         cand = list(base) + [e]
         if cand not in variants:
             variants.append(cand)
+    rng_tw = random.Random(f"{seed}:C23tw:{run}")  # own stream: the other plans stay as they were
+    if rng_tw.random() < 0.15:
+        # twin mode: all variants are near-twins of one another (see workload.NAMESPACE_TWINS)
+        picks = rng_tw.sample(range(len(workload.NAMESPACE_TWINS)), n_var)
+        variants = [[["namespace_twin", k]] for k in picks]
     n_paths = rng.choice([1, 1, 2, 3])
     names = ["meta_model.py", "sub/meta_model.py", "other.py"]
     paths = names[:n_paths]
